@@ -13,6 +13,7 @@ pub mod data;
 pub mod s_dp;
 pub mod s_dpagg;
 pub mod s_pup;
+pub mod s_reltree;
 pub mod s_fn;
 pub mod s_inj;
 pub mod s_filter;
@@ -68,6 +69,7 @@ fn streams() -> Vec<(&'static str, GenFn, EvalFn)> {
         ("dpquery", s_dp::gen_query, s_dp::eval_query),
         ("dpagg", s_dpagg::gen, s_dpagg::eval),
         ("pup", s_pup::gen, s_pup::eval),
+        ("reltree", s_reltree::gen, s_reltree::eval),
     ]
 }
 
